@@ -97,10 +97,8 @@ func (f *Dovector) Call(s *slip.Scope, args slip.List, depth int) slip.Object {
 					}
 					return tr
 				case *cl.GoTo:
-					for i++; i < len(args); i++ {
-						if args[i] == tr.Tag {
-							break
-						}
+					if i = tagIndexOf(args, 1, tr.Tag); i < 0 {
+						return tr // a tag of an enclosing tagbody
 					}
 				}
 			}
@@ -109,4 +107,21 @@ func (f *Dovector) Call(s *slip.Scope, args slip.List, depth int) slip.Object {
 	ns.UnsafeLet(sym, nil)
 
 	return ns.Eval(rform, d2)
+}
+
+// tagIndexOf returns the index of the tag in the statements args[start:] or -1
+// if the tag is not one of them. Tags before the current statement are found
+// as well so that a go can jump backward.
+func tagIndexOf(args slip.List, start int, tag slip.Object) int {
+	for i := start; i < len(args); i++ {
+		switch args[i].(type) {
+		case slip.List, slip.Funky:
+			// a statement
+		default:
+			if args[i] == tag {
+				return i
+			}
+		}
+	}
+	return -1
 }
